@@ -51,6 +51,36 @@ class _TextSections(NamedTuple):
     after: str
 
 
+def _verify_block_comments(text: str, style: Type[CommentStyle]) -> None:
+    """A commented template brings its own comment markers. If those are the
+    markers of a block comment, a value that holds the terminator ends the
+    comment before the header ends: what is left of it is no comment, and the
+    header is not found again. Verify that *text* consists of whole comments.
+
+    Raises:
+        CommentCreateError: if it does not.
+    """
+    if not (
+        style.can_handle_multi() and text.startswith(style.MULTI_LINE.start)
+    ):
+        return
+    lines = text.split("\n")
+    position = 0
+    while position < len(lines):
+        if not lines[position].strip():
+            position += 1
+            continue
+        try:
+            comment = style.comment_at_first_character(
+                "\n".join(lines[position:])
+            )
+        except CommentParseError as error:
+            raise CommentCreateError(
+                f"'{lines[position]}' is outside of a comment"
+            ) from error
+        position += comment.count("\n") + 1
+
+
 def _create_new_header(
     reuse_info: ReuseInfo,
     template: Optional[Template] = None,
@@ -83,6 +113,7 @@ def _create_new_header(
 
     if template_is_commented:
         result = rendered
+        _verify_block_comments(result, style)
     else:
         result = style.create_comment(rendered, force_multi=force_multi).strip(
             "\n"
